@@ -26,6 +26,7 @@ STD = scenarios.STD
 
 
 def build_jobs(work, quick, rng):
+    rng = random.Random(12345)        # the same scenarios for every interpreter (only the work directory differs)
     cfile = scenarios.write_constants(os.path.join(work, "c.json"))
     jobs = []
 
@@ -40,6 +41,22 @@ def build_jobs(work, quick, rng):
     add("handler", 4, {"shape": [4, 5, 6], "nprocs": [2, 2], "layouts": {"A": [0, 1, 2], "B": [0, 2, 1], "C": [2, 1, 0]}})
     add("handler", 4, {"shape": [4, 4, 4, 4], "nprocs": [2, 2],
                        "layouts": {"a": [0, 1, 2, 3], "b": [0, 2, 1, 3], "c": [0, 3, 2, 1], "d": [3, 2, 0, 1], "e": [3, 1, 2, 0]}})
+    # layout graphs with several equally short routes (cycles): the tie-break of the route search decides, and must decide
+    # identically in every interpreter
+    six = {"L%d%d%d" % tuple(o): list(o) for o in itertools.permutations(range(3))}
+    add("handler", 4, {"shape": [4, 5, 6], "nprocs": [2, 2], "layouts": six, "usebuf": False})
+    add("handler", 6, {"shape": [4, 5, 6], "nprocs": [2, 3], "layouts": dict(reversed(list(six.items()))), "usebuf": False})
+    perms4 = [list(o) for o in itertools.permutations(range(4))]
+    made = 0
+    while made < (3 if quick else 12):
+        k = rng.randint(5, 8)
+        chosen = rng.sample(perms4, k)
+        lay = {"P%d%d%d%d" % tuple(o): o for o in chosen}
+        g = rng.choice([[2, 2], [2, 3], [3, 2]])
+        from harness.checks.c02 import connected
+        if connected(lay, g):
+            add("handler", int(np.prod(g)), {"shape": [4, 4, 5, 6], "nprocs": g, "layouts": lay, "usebuf": False})
+            made += 1
     walk = [["v_parallel_2d", False], ["v_parallel_1d", True], ["poloidal", False], ["mode_solve", True], ["poloidal", False],
             ["v_parallel_2d", False], ["mode_solve", False], ["v_parallel_1d", False]]
     for g in ([2, 2], [1, 2], [2, 1], [2, 3]) + (() if quick else ([3, 2], [1, 3], [3, 3])):
